@@ -35,6 +35,7 @@ type result struct {
 type resultRequest struct {
 	create *CreateContainerRequest
 	update *UpdateContainerRequest
+	args   []string // original command line of the container being created
 }
 
 type resultReply struct {
@@ -85,6 +86,7 @@ func collectCreateContainerResult(request *CreateContainerRequest) *result {
 	return &result{
 		request: resultRequest{
 			create: request,
+			args:   slices.Clone(request.Container.Args),
 		},
 		reply: resultReply{
 			adjust: &ContainerAdjustment{
@@ -551,6 +553,13 @@ func (r *result) adjustArgs(args []string, plugin string) error {
 	if args[0] == "" {
 		r.owners.clearArgs(id)
 		args = args[1:]
+		if len(args) == 0 {
+			// a bare removal marker sets nothing: it holds no claim, and with the
+			// collected command line dropped the original one is in effect again
+			r.reply.adjust.Args = nil
+			create.Container.Args = slices.Clone(r.request.args)
+			return nil
+		}
 	}
 
 	if err := r.owners.claimArgs(id, plugin); err != nil {
